@@ -1,4 +1,5 @@
 import QtyModel.Tables
+import QtyModel.Oracle
 /-
   Model of `src/rate.rs` (`Rate<TQ, PQ>`), of the generated `Mul<Rate<TQ, Self>>` /
   `Div<Rate<Self, PQ>>` operators (`codegen_impl_std_traits`) and of
@@ -43,6 +44,32 @@ def divQ (TT : RTable A) (q : Q A Nat) (r : Rate A) : Res (Q A Nat) := do
   return ⟨← R.mul amnt r.perMultiple, r.perUnit⟩
 
 end Rate
+
+/-- error-propagated value of `q / (1·u)` for a quantity `q = (a, qu)` of table `T`
+(`Div<Self>`): `.error` = the documented unit-mismatch panic is expected -/
+def approxQDiv {A : Type} (R : Arith A) (M : ErrModel) (T : RTable A) (a : Approx) (qu u : Nat) : Except Unit (Option Approx) :=
+  let one := Approx.exact 1
+  match T.kind with
+  | .withRef =>
+    if qu == u then .ok (Approx.div M a one)
+    else match R.val (T.scaleOf R u), R.val (T.scaleOf R qu) with
+      | some su, some sq =>
+        .ok (do
+          let ratio ← Approx.div M (Approx.exact su) (Approx.exact sq)
+          Approx.div M a (Approx.mul M ratio one))
+      | _, _ => .ok none
+  | .noRef => if qu == u then .ok (Approx.div M a one) else .error ()
+  | .single => .ok (Approx.div M a one)
+
+/-- `((q / 1·u) / d) * m` -/
+def approxRateApply {A : Type} (R : Arith A) (M : ErrModel) (T : RTable A) (a : Approx) (qu u : Nat) (d m : Approx) :
+    Except Unit (Option Approx) :=
+  match approxQDiv R M T a qu u with
+  | .error e => .error e
+  | .ok x => .ok (do
+      let x ← x
+      let amnt ← Approx.div M x d
+      pure (Approx.mul M amnt m))
 
 /-- one row of a `ConversionTable`: `to_amount = from_amount * factor + offset` -/
 structure ConvRow (A : Type) where
